@@ -65,6 +65,7 @@ pub fn spec(prop: &str) -> Spec {
         "C14" => (vec![s("proxy:C14", 1)], 1200, 40000),
         "C15" => (vec![s("proxy:C15", 1)], 800, 20000),
         "C16" => (vec![s("provision:C16", 1)], 1200, 40000),
+        "C17" => (vec![s("setup:C17", 1)], 160, 5000),
         "C18" => (vec![s("telemetry:C18", 1)], 400, 12000),
         "C19" => (vec![s("disk:C19", 1)], 600, 20000),
         _ => (vec![], 0, 0),
@@ -76,6 +77,16 @@ pub fn spec(prop: &str) -> Spec {
             thorough_runs: t,
             level: "exploration",
             rule: "one child run = one workload generated from mix(VERIF_SEED, i) (1-8 processes x 1-4 threads with independently drawn uid/gid/tgid/tid, 1-12 connects each to protected endpoints, near misses, UDP, IPv6, the listener itself and arbitrary others, plus concurrent user-space policy / skip-map edits through the agent's real BpfObject) executed under 100 (quick) or 400 (thorough) schedules of a seeded shuttle scheduler (random or PCT), with a scheduling point before every BPF helper call; one evaluation = one schedule; every completed connect is compared with a reference of the documented behaviour and every record is read back through the agent's real decoders. distinct_nontrivial = number of child runs (workloads) whose schedule digest - a hash of the (thread, helper call) sequence over all their schedules - is distinct and in which at least one connect completed".to_string(),
+            exhaustive: false,
+        };
+    }
+    if prop == "C17" {
+        return Spec {
+            scenarios: scen,
+            quick_runs: q,
+            thorough_runs: t,
+            level: "exploration",
+            rule: "one evaluation = one seeded history of 1-8 setup commands (backup, install, restore with/without backup deletion, uninstall service|package, purge; the round trip backup -> install -> restore is over-represented) run with the real proxy_agent_setup binary built from /repo, from a seeded initial state (nothing installed / a version installed) x (backup absent / present) with random file contents, in a private mount namespace whose overlay upper directories show every change under /etc, /usr/sbin, /usr/lib, /var/lib, /var/log; after every command the four system files, the backup folder, the rest of the tool's folder and the overlay upper directories are compared with a file-tree reference model, and the stand-in systemctl's journal (arguments + hashes of the four files at each invocation) with the required stop-before / start-after ordering. A history is non-trivial when at least one command ran; distinct = distinct (history, initial state) digests".to_string(),
             exhaustive: false,
         };
     }
